@@ -215,3 +215,40 @@ Proof.
   - apply (xorb_get_chunk_range lz4c lz4d choose Hrt Hcv); auto; lia.
   - rewrite <- chunk_range_split by lia. apply (xorb_get_chunk_range lz4c lz4d choose Hrt Hcv); auto; lia.
 Qed.
+
+  (* ---- the error branch ---- *)
+
+Lemma built_info_ok lz4c choose cashash chunks hashes scheme :
+  xorb_input_ok cashash chunks hashes -> bytes_eqb cashash zero_hash = false -> chunks <> [] ->
+  info_ok (built_info lz4c choose cashash chunks hashes scheme) = true.
+Proof.
+  intros Hin Hz Hne. pose proof Hin as (H1 & H2 & H3 & H4 & H5 & H6).
+  unfold info_ok, built_info. cbn [i_num_chunks i_boundaries i_hashes i_bnd_version i_unpacked i_cashash].
+  rewrite !cumsum_length. unfold phys_lens. rewrite !map_length. rewrite H3, Hz.
+  destruct chunks; [congruence|]. cbn [length]. rewrite !N.eqb_refl. cbn.
+  replace (N.of_nat (S (length chunks)) =? 0) with false by lia. reflexivity.
+Qed.
+
+(* the error branch: an empty, inverted or out-of-range chunk range is refused as InvalidArguments whatever the bytes are --
+   no panic, no bytes handed out *)
+Theorem xorb_bad_range_refused lz4c lz4d choose cashash chunks hashes scheme bs a b :
+  xorb_input_ok cashash chunks hashes -> bytes_eqb cashash zero_hash = false -> chunks <> [] ->
+  b <= a \/ N.of_nat (length chunks) < b ->
+  get_bytes_by_chunk_range lz4d (built_info lz4c choose cashash chunks hashes scheme) bs a b = RErr.
+Proof.
+  intros Hin Hz Hne Hbad. unfold get_bytes_by_chunk_range, get_byte_offset.
+  rewrite (built_info_ok lz4c choose cashash chunks hashes scheme Hin Hz Hne). cbn [negb].
+  change (i_num_chunks (built_info lz4c choose cashash chunks hashes scheme)) with (N.of_nat (length chunks)).
+  replace ((b <=? a) || (N.of_nat (length chunks) <? b)) with true by lia. reflexivity.
+Qed.
+
+Theorem xorb_bad_range_length_refused lz4c choose cashash chunks hashes scheme a b :
+  xorb_input_ok cashash chunks hashes -> bytes_eqb cashash zero_hash = false -> chunks <> [] ->
+  b < a \/ N.of_nat (length chunks) < b \/ N.of_nat (length chunks) <= a ->
+  uncompressed_range_length (built_info lz4c choose cashash chunks hashes scheme) a b = RErr.
+Proof.
+  intros Hin Hz Hne Hbad. unfold uncompressed_range_length.
+  rewrite (built_info_ok lz4c choose cashash chunks hashes scheme Hin Hz Hne). cbn [negb].
+  change (i_num_chunks (built_info lz4c choose cashash chunks hashes scheme)) with (N.of_nat (length chunks)).
+  replace ((b <? a) || (N.of_nat (length chunks) <? b) || (N.of_nat (length chunks) <=? a)) with true by lia. reflexivity.
+Qed.
